@@ -80,16 +80,16 @@ CHECKS.update({
 })
 CHECKS.update({
     "C11": ("exploration", "exhaustive enumeration of algorithm x model x seed x logging-option product x prior activity in the interpreter, plus fresh interpreters under five hash seeds, comparing byte-level result digests with a reference run",
-            "Every accepted combination of print / save / plot periodicities, patient plots, sourcewise flag and output path, and every prior activity of the menu (consumed random numbers, other fits / personalizations first, reused settings object, dtype switches), is run for fit (three population samplers), the three personalizations and simulate on two model kinds and three seeds; the byte-level digest of the result must equal that of the plain reference run, also from freshly started interpreters under PYTHONHASHSEED 0..4; refused option combinations must be refused at settings time.",
+            "Every accepted combination of print / save / plot periodicities, patient plots, sourcewise flag and output path, and every prior activity of the menu (consumed random numbers, other fits / personalizations first, reused settings object, dtype switches), is run for fit (three population samplers), the three personalizations and simulate on two model kinds and three seeds; the byte-level digest of the result must equal that of the plain reference run, also from freshly started interpreters under PYTHONHASHSEED 0..4; refused option combinations must be refused at settings time. A fit with annealing on goes through the same grids; scipy_minimize with n_jobs >= 2 is repeated inside one new interpreter (same cohort twice in a row and again after other cohorts); on a model object fitted in the process the seeded personalize / simulate call is made twice (identical bytes).",
             "Tiny data, n_iter 6; the full logging product only for fit(Gibbs) in the thorough tier, 2-valued grid elsewhere."),
     "C17": ("exploration", "exhaustive enumeration of model kind x cohort x identifier scheme x input form x algorithm x settings (iterations, burn-in, annealing, seed, optimiser) with recording spies on scipy.optimize.minimize, the individual sampler and the posterior summarisers",
-            "Every case of the grid is personalised by the real algorithms: keys = input identifiers (as strings) in input order, expected shapes, finite values; scipy_minimize: the objective re-evaluated from scratch at the returned point is not worse than at the recorded start; MCMC: the kept draws are bit-equal to the chain's draws after burn-in, their recorded attachment / regularity equal the from-scratch values, and the result is exactly their mean / the first draw of minimal loss per individual.",
+            "Every case of the grid is personalised by the real algorithms: keys = input identifiers (as strings) in input order, expected shapes, finite values; scipy_minimize: the objective re-evaluated from scratch at the returned point is not worse than at the recorded start; MCMC: the kept draws are bit-equal to the chain's draws after burn-in, their recorded attachment / regularity equal the from-scratch values, and the result is exactly their mean / the first draw of minimal loss per individual; with n_jobs >= 2 (separate interpreter, optimisations recorded inside the workers with the identifier they ran for) the estimate returned under an identifier has, on that individual's own data, the objective value the optimiser reported for it.",
             "Cohorts of 1-3 individuals; n_burn_in == n_iter (no kept draw) is outside the property's domain; mixture model only with hand-written parameters."),
 })
 CHECKS.update({
     "C07": ("exploration", "exhaustive metamorphic enumeration of ordered cohorts drawn from a 5-individual catalogue, replacements of the other members' data, alone-vs-batch, permutations, scripted position-indexed draws and n_jobs through the real state / sampler / personalizations",
-            "Every ordered cohort of size 1-3 from the catalogue, every replacement of the other members' values, every permutation and n_jobs in {1,2,3} is run: per-individual attachment / regularity terms, scripted sampler decisions and personalised parameters must be bit-identical when only others change, rounding-identical alone vs in batch, totals must be the sums of per-individual terms, permutations must permute outputs, and the number of workers must not change keys, order or (within the stated optimiser tolerance) values.",
-            "Catalogue of 5 individuals; n_jobs independence decided up to the optimiser tolerance of DESIGN 2.3."),
+            "Every ordered cohort of size 1-3 from the catalogue, every replacement of the other members' values, every permutation and n_jobs in {1,2,3} is run: per-individual attachment / regularity terms, scripted sampler decisions and personalised parameters must be bit-identical when only others change, rounding-identical alone vs in batch, totals must be the sums of per-individual terms, permutations must permute outputs, and the number of workers must not change keys, order, the start point of any individual's optimisation (recorded inside the joblib workers, bit-exact) or (within the stated optimiser tolerance) values; every n_jobs call is repeated with a used worker pool (identical bytes); individual samplers are also driven with an aggressive adaptive tuning, and other members may have no observed value at all.",
+            "Catalogue of 5 individuals; final values across n_jobs decided up to the optimiser tolerance of DESIGN 2.3 (start points exactly)."),
 })
 NOT_APPLICABLE = {}
 
